@@ -38,32 +38,72 @@ type connRun struct {
 
 	chunkMode int
 	sched     strings.Builder
-	reqOfCall []int // request index being served when call i was made
+	reqOfCall []int // request index being served when this connection's call i was made
 	callAt    []time.Time
-	curReq    func() int
+	calls     []*wl.Call
+	W         *world
+	name      string
+}
+
+// world is the shared part of a conn-level run: one server, one double, any number of connections.
+type world struct {
+	S     *sim.Sim
+	N     *sim.Net
+	Srv   *redis.Server
+	D     *wl.Double
+	O     *Outcome
+	Conns []*connRun
+}
+
+func newWorld(tape *sim.Tape, o *Outcome) *world {
+	s := sim.New(tape)
+	w := &world{S: s, N: sim.NewNet(s), O: o, D: &wl.Double{}}
+	w.Srv = redis.NewServer()
+	w.Srv.SetCommandHandler(w.D)
+	w.D.ConnID = func(rc *redis.Conn) string {
+		if e, ok := rc.Conn.(*sim.End); ok {
+			return fmt.Sprintf("c%d", e.P.ID)
+		}
+		return "?"
+	}
+	w.D.OnCall = func(call *wl.Call) {
+		for _, c := range w.Conns {
+			if c.P != nil && fmt.Sprintf("c%d", c.P.ID) == call.CID {
+				c.onCall(call)
+				return
+			}
+		}
+		s.Logf("calls", "call on unknown connection %s: %s", call.CID, call.Sig)
+	}
+	return w
+}
+
+func (w *world) addConn() *connRun {
+	c := &connRun{S: w.S, N: w.N, Srv: w.Srv, D: w.D, O: w.O, W: w}
+	w.Conns = append(w.Conns, c)
+	return c
 }
 
 func newConnRun(tape *sim.Tape, o *Outcome) *connRun {
-	s := sim.New(tape)
-	n := sim.NewNet(s)
-	c := &connRun{S: s, N: n, O: o, D: &wl.Double{}}
-	c.Srv = redis.NewServer()
-	c.Srv.SetCommandHandler(c.D)
-	c.D.OnCall = func(call *wl.Call) {
-		c.callAt = append(c.callAt, time.Now())
-		// which request is being served: the number of complete replies written so far
-		c.collect()
-		vals, _, _, _ := c.decodeReplies()
-		ri := len(vals)
-		c.reqOfCall = append(c.reqOfCall, ri)
-		if ri < len(c.Reqs) && mapIterating[c.Reqs[ri].Name] {
-			// Go map iteration order cannot be seeded: the canonical log keeps only the method
-			s.Logf("c0", "call r%d %s <map-ordered>", ri, call.Method)
-		} else {
-			s.Logf("c0", "call r%d %s", ri, call.Sig)
-		}
+	return newWorld(tape, o).addConn()
+}
+
+func (c *connRun) key() string { return fmt.Sprintf("c%d", c.P.ID) }
+
+func (c *connRun) onCall(call *wl.Call) {
+	c.callAt = append(c.callAt, time.Now())
+	c.calls = append(c.calls, call)
+	// which request is being served: the number of complete replies written so far
+	c.collect()
+	vals, _, _, _ := c.decodeReplies()
+	ri := len(vals)
+	c.reqOfCall = append(c.reqOfCall, ri)
+	if ri < len(c.Reqs) && mapIterating[c.Reqs[ri].Name] {
+		// Go map iteration order cannot be seeded: the canonical log keeps only the method
+		c.S.Logf(c.key(), "call r%d %s <map-ordered>", ri, call.Method)
+	} else {
+		c.S.Logf(c.key(), "call r%d %s", ri, call.Sig)
 	}
-	return c
 }
 
 // setReqs installs the client script.
@@ -81,31 +121,41 @@ func (c *connRun) setReqs(reqs []*wl.Req) {
 func (c *connRun) start() {
 	c.P = c.N.NewPipe()
 	end := c.P.Ends[1]
-	end.TaskName = "srv"
+	c.name = fmt.Sprintf("srv%d", c.P.ID)
+	end.TaskName = c.name
 	go func() {
 		defer func() {
 			if r := recover(); r != nil {
 				c.panicVal = r
 				c.panicStk = string(debug.Stack())
-				c.S.Logf("c0", "PANIC %v", r)
+				c.S.Logf(c.key(), "PANIC %v", r)
 			}
 			c.done = true
 			c.S.Exit()
 		}()
-		c.S.Name("srv")
+		c.S.Name(c.name)
 		c.srvErr = c.Srv.VerifServeConn(end, nil)
-		c.S.Logf("c0", "serve returned")
+		c.S.Logf(c.key(), "serve returned")
 	}()
 }
 
 // srvTask returns the parked server task (nil if it ended).
 func (c *connRun) srvTask() *sim.Task {
 	for _, t := range c.S.Parked() {
-		if t.Name == "srv" {
+		if t.Name == c.name {
 			return t
 		}
 	}
 	return nil
+}
+
+func (c *connRun) runnable(t *sim.Task) bool {
+	for _, r := range c.S.Runnable() {
+		if r == t {
+			return true
+		}
+	}
+	return false
 }
 
 // collect moves the server's output to c.reply.
@@ -169,12 +219,9 @@ func (c *connRun) pump(atQuiescence func()) {
 	for guard := 0; guard < 1<<20; guard++ {
 		c.S.Wait()
 		c.collect()
-		if t := c.srvTask(); t != nil {
-			rs := c.S.Runnable()
-			if len(rs) > 0 {
-				c.S.Release(rs[0])
-				continue
-			}
+		if t := c.srvTask(); t != nil && c.runnable(t) {
+			c.S.Release(t)
+			continue
 		}
 		// quiescent and the server (if alive) waits for input that is not there
 		if atQuiescence != nil {
@@ -243,14 +290,16 @@ func (c *connRun) sentReqs() int {
 }
 
 // finish tears the run down and fills the outcome's bookkeeping.
-func (c *connRun) finish() {
-	c.N.CloseAll()
-	c.S.Teardown()
-	c.O.Log = c.S.CanonLog()
-	c.O.LogHash = c.S.LogHash()
-	c.O.Steps = c.S.Steps
-	for k, v := range c.S.Counter {
-		c.O.stat(k, v)
+func (c *connRun) finish() { c.W.finish() }
+
+func (w *world) finish() {
+	w.N.CloseAll()
+	w.S.Teardown()
+	w.O.Log = w.S.CanonLog()
+	w.O.LogHash = w.S.LogHash()
+	w.O.Steps = w.S.Steps
+	for k, v := range w.S.Counter {
+		w.O.stat(k, v)
 	}
 }
 
